@@ -101,6 +101,10 @@ TraceBBConst == /\ IsEvent("bb_const")
                 \cup IF_(\E f \in 0..7 : S_(r.files[f+1]) # FileSet(f), {"File::bitboard"})
                 \cup IF_(\E k \in 0..7 : S_(r.ranks[k+1]) # RankSet(k), {"Rank::bitboard"})
                 \cup IF_(\E f \in 0..7 : S_(r.adjacent[f+1]) # AdjacentFiles(f), {"File::adjacent"})
+                \cup IF_(\E f \in 0..7 : S_(r.from_files[f+1]) # FileSet(f), {"BitBoard::from(File)"})
+                \cup IF_(\E k \in 0..7 : S_(r.from_ranks[k+1]) # RankSet(k), {"BitBoard::from(Rank)"})
+                \cup IF_(\E q \in Sq : S_(r.from_squares[q+1]) # {q}, {"BitBoard::from(Square)"})
+                \cup IF_(\E q \in Sq : S_(r.sq_bitboard[q+1]) # {q}, {"Square::bitboard"})
      IN Obs(IF_(bad # {}, {<<"EXT", "bitboard-constants", bad>>}))
 
 (* ------------------------------ PieceMoves ------------------------------ *)
